@@ -65,7 +65,8 @@ def parseLeveler (s0 : String) : Option (Leveler × Int) :=
   -- a trailing "s" = HandlerOptions.AddSource and records with a program counter: it only changes
   -- what the text handler prints, which is the `text` parameter (the oracle field of the case)
   -- (and a trailing "r" = HandlerOptions.ReplaceAttr, likewise only visible in `text`)
-  let s1 := if s0.endsWith "r" then String.ofList (s0.toList.dropLast) else s0
+  let s00 := if s0.endsWith "R" then String.ofList (s0.toList.dropLast) else s0
+  let s1 := if s00.endsWith "r" then String.ofList (s00.toList.dropLast) else s00
   let s := if s1.endsWith "s" then String.ofList (s1.toList.dropLast) else s1
   if s.startsWith "v" then (parseInt? (s.drop 1).toString).map fun l => (Leveler.var, l)
   else (parseInt? s).map fun l => (Leveler.const l, 0)
